@@ -42,6 +42,7 @@ import Restful.Lemmas.RegistryTotal
 import Restful.Lemmas.StateShape
 import Restful.Lemmas.TieImpPrefix
 import Restful.Lemmas.TieImpRegistry
+import Restful.Lemmas.TieImpBuild
 namespace Restful
 namespace Props
 open Registry
@@ -373,3 +374,5 @@ end Restful
 -- also: Restful.TieImp.T2.fixed_prefix_path
 -- also: Restful.TieImp.add_handler
 -- also: Restful.TieImp.remove_route
+-- also: Restful.TieImp.build_route
+-- also: Restful.TieImp.copy_defaults
